@@ -217,6 +217,9 @@ func (s *checkpoint) StartSchedule() {
 		s.running = true
 		for s.running {
 			time.Sleep(s.config.Checkpoint.Interval)
+			if !s.running {
+				break
+			}
 			s.Save()
 		}
 	}()
